@@ -34,14 +34,16 @@ enum St {
 struct Sess {
     st: St,
     pending: Vec<u8>,
+    tracker: jxl_oxide::AllocTracker,
 }
 
 fn fresh() -> Sess {
+    let tracker = jxl_oxide::AllocTracker::with_limit(1 << 30);
     let u = JxlImage::builder()
         .pool(JxlThreadPool::none())
-        .alloc_tracker(jxl_oxide::AllocTracker::with_limit(1 << 30))
+        .alloc_tracker(tracker.clone())
         .build_uninit();
-    Sess { st: St::Uninit(Box::new(u)), pending: Vec::new() }
+    Sess { st: St::Uninit(Box::new(u)), pending: Vec::new(), tracker }
 }
 
 struct Fnv(u64);
@@ -517,6 +519,18 @@ fn op(s: &mut Sess, o: &str) -> String {
         }
         ("eof", Some(p)) => do_eof(p),
         ("loading", None) => do_loading(s),
+        // fault injection (hook H1): from the k-th allocation from now on every allocation fails
+        ("ff", Some(k)) => match k.parse::<usize>() {
+            Ok(k) => {
+                s.tracker.verif_fail_from(s.tracker.verif_alloc_calls() + k);
+                "ff".into()
+            }
+            Err(_) => "bad-op".into(),
+        },
+        ("ffoff", None) => {
+            s.tracker.verif_fail_from(usize::MAX);
+            "ffoff".into()
+        }
         ("finish", None) => do_finish(s),
         ("read", Some(h)) => match unhex(h) {
             Some(b) => do_read(&b),
